@@ -8,7 +8,10 @@ from __future__ import annotations
 from symx import core
 from symx.core import And, Implies, Not, Or
 from symx.run import Obligation
+from symx import shims
 from symx.shims import AssocMap, builtin_shims, patched
+
+from . import fixtures
 
 PROP = "C14"
 
@@ -154,6 +157,78 @@ def h_history(eng, size, ops, natoms=3):
                     eng.check(n == 0, "removed-not-returned", note=f"after {' '.join(log)}: removed atom {o.name} still returned")
 
 
+# ---------------------------------------------------------------------------
+# Q4: the debump call site: real Debump.set_dihedral_angle with the rotation
+# result abstracted to arbitrary new coordinates -> cell map still consistent
+# ---------------------------------------------------------------------------
+
+
+def _expected_key(cells_mod, size, atom, structures):
+    """Key the real add_cell assigns to these coordinates (fresh map)."""
+    probe = structures.Atom()
+    probe.x, probe.y, probe.z = atom.x, atom.y, atom.z
+    c = cells_mod.Cells(size)
+    c.add_cell(probe)
+    return probe.cell
+
+
+def h_debump_site(eng, resname, anglenum, size):
+    from pdb2pqr import debump
+
+    cells, structures = _mods()
+    bm, _ = fixtures.prepared(fixtures.peptide_lines(["GLY", resname, "GLY"]))
+    res = bm.residues[1]
+    bm.set_reference_distance()
+    res.dihedrals = [0.0] * len(res.reference.dihedrals)
+    names = res.reference.dihedrals[anglenum].split()
+    moved = res.get_moveable_names(names[2])
+    for nm in moved:
+        a = res.get_atom(nm)
+        a.x, a.y, a.z = eng.real(f"{nm}_x0"), eng.real(f"{nm}_y0"), eng.real(f"{nm}_z0")
+    deb = debump.Debump(bm)
+    c = _mk_cells(cells, size, eng.symbolic)
+
+    class Bio:
+        # the moved atoms plus one static atom (the map content does not matter to the protocol)
+        atoms = [res.get_atom(nm) for nm in moved] + [res.get_atom("CA")]
+
+    fresh = {nm: [eng.real(f"{nm}_x1"), eng.real(f"{nm}_y1"), eng.real(f"{nm}_z1")] for nm in moved}
+    pivot = res.get_atom(names[1]).coords
+
+    class Quat:
+        @staticmethod
+        def qchichange(initcoords, movecoords, diff):
+            # rotation abstracted: arbitrary new positions (relative to the pivot, as the caller expects)
+            return [[fresh[nm][k] - pivot[k] for k in range(3)] for nm in moved]
+
+    from pdb2pqr import utilities
+
+    real_dihedral = utilities.dihedral
+    np_shim = [(utilities, "np", shims.NP), (utilities, "dihedral", lambda *a: 0.0), (debump, "int", core.sym_int_t)] if eng.symbolic else []
+    with patched(*_shims(eng, cells), (debump, "quat", Quat), *np_shim):
+        c.assign_cells(Bio)
+        deb.cells = c
+        deb.set_dihedral_angle(res, anglenum, eng.real("angle"))
+        for a in Bio.atoms:
+            want = _expected_key(cells, size, a, structures)
+            got = a.cell
+            eng.check(got is not None, "has-cell")
+            if got is None:
+                continue
+            eng.check(And(*[core.same(got[k], want[k]) for k in range(3)]), "cell-matches-coordinates", note=f"{a.name}: cell key is stale after set_dihedral_angle (atom would be missed by neighbour queries)")
+            # listed exactly once, under its own key
+            total = 0
+            for k, lst in c.cellmap.items():
+                n = lst.count(a)
+                total += n
+                if n:
+                    eng.check(And(*[core.same(k[d], got[d]) for d in range(3)]), "listed-under-own-key", note=f"{a.name} listed under a key that is not atom.cell")
+            eng.check(total == 1, "listed-once", note=f"{a.name} listed {total} times in the cell map")
+    for nm in moved:
+        a = res.get_atom(nm)
+        eng.check(And(core.same(a.x, fresh[nm][0]), core.same(a.y, fresh[nm][1]), core.same(a.z, fresh[nm][2])), "moved-to-rotated-position")
+
+
 def obligations(tier):
     obs = []
     sizes_key = range(1, 11) if tier == "thorough" else (2, 5)
@@ -175,12 +250,18 @@ def obligations(tier):
         for s in (2, 5):
             hist(s, 2, 2)
             hist(s, 1, 3)
+    for s in (2, 5) if tier == "thorough" else (2,):
+        obs.append(Obligation(f"debump-site-SER-chi1-size{s}", h_debump_site, {"resname": "SER", "anglenum": 0, "size": s}, group="debump-site", time_cap=3000, max_paths=200000))
+    if tier == "thorough":
+        obs.append(Obligation("debump-site-CYS-chi1-size2", h_debump_site, {"resname": "CYS", "anglenum": 0, "size": 2}, group="debump-site", time_cap=3000, max_paths=200000))
     return obs
 
 
 def encoded():
     cells, _ = _mods()
-    return [cells.Cells.add_cell, cells.Cells.remove_cell, cells.Cells.get_near_cells, cells.Cells.assign_cells]
+    from pdb2pqr import debump
+
+    return [cells.Cells.add_cell, cells.Cells.remove_cell, cells.Cells.get_near_cells, cells.Cells.assign_cells, debump.Debump.set_dihedral_angle]
 
 
 META = dict(
@@ -188,6 +269,7 @@ META = dict(
         "pdb2pqr.cells.int -> symx truncation-toward-zero on exact reals (module-namespace shim)",
         "Cells.cellmap -> symx AssocMap (association list, key equality decided by the solver) instead of dict",
         "atoms are real pdb2pqr.structures.Atom objects with symbolic x,y,z",
+        "debump-site: debump.quat.qchichange -> returns arbitrary fresh symbolic positions (the rotation itself is C04/C15's subject); pdb2pqr.utilities.np -> symx numpy subset (exact list arithmetic) so the real util.subtract/add run on proxies; utilities.dihedral -> constant (its value is irrelevant to the cell map)",
     ],
     bounds=[
         "coordinates: unbounded reals (no range restriction)",
@@ -195,7 +277,7 @@ META = dict(
         "histories: assign_cells on natoms-1 atoms (+1 outside), then every sequence of nops operations from {add, remove, move=remove/write/add with fresh symbolic coordinates, readd} x atom (operation sequences enumerated, coordinates symbolic), then a query from every present atom; quick: 2 atoms x 1 op; thorough: 2 atoms x 2 ops and 3 atoms x 1 op",
     ],
     outside=[
-        "the ~40 call sites in pdb2pqr/hydrogens/* that are supposed to bracket coordinate writes with remove_cell/add_cell (see DESIGN C14 out); the debump call site is covered by C04",
+        "the ~40 call sites in pdb2pqr/hydrogens/* that are supposed to bracket coordinate writes with remove_cell/add_cell (see DESIGN C14 out); the debump call site (Debump.set_dihedral_angle) IS covered, on SER/CYS chi1 (one moved heavy atom; the per-atom protocol is a loop body)",
         "floating-point: coordinates are exact reals; add_cell only compares with 0 and truncates, both exact on doubles",
         "histories longer than the stated bound",
     ],
